@@ -61,6 +61,9 @@ type T struct {
 	lo   uint64 // unsigned interval (valid if rng)
 	hi   uint64
 	rng  bool
+	// exact: the node is an Add/Sub/Mul/Shl whose interval was derived from its operands' intervals with no
+	// wrap-around possible (so it denotes the mathematical sum/difference/product).  Never set by SetRange/Refine.
+	exact bool
 }
 
 func Mask(w uint8) uint64 {
@@ -225,7 +228,7 @@ func Refine(t *T, lo, hi uint64) {
 		}
 		Refine(t.A[0], lo, h)
 	case OAdd:
-		if t.rng && t.A[1].IsConst() {
+		if t.exact && t.A[1].IsConst() {
 			c := t.A[1].C
 			if hi >= c {
 				l := uint64(0)
@@ -295,6 +298,7 @@ func Add(a, b *T) *T {
 	m := Mask(a.W)
 	if ah <= m-bh { // no overflow
 		r.setRange(al+bl, ah+bh)
+		r.exact = true
 	}
 	return r
 }
@@ -328,11 +332,18 @@ func Sub(a, b *T) *T {
 			return a.A[0]
 		}
 	}
+	// difference of two exact sums that share terms: (x + 55) - (x + 9) = 46, (x + y + 3) - y = x + 3
+	if !b.IsConst() && (a.Op == OAdd || b.Op == OAdd) {
+		if d := linSub(a, b); d != nil {
+			return d
+		}
+	}
 	r := mk(OSub, a.W, a, b)
 	al, ah := a.Range()
 	bl, bh := b.Range()
 	if al >= bh {
 		r.setRange(al-bh, ah-bl)
+		r.exact = true
 	}
 	return r
 }
@@ -376,6 +387,7 @@ func Mul(a, b *T) *T {
 	r := mk(OMul, a.W, a, b)
 	if hi == 0 && lo <= Mask(a.W) {
 		r.setRange(al*bl, lo)
+		r.exact = true
 	}
 	return r
 }
@@ -392,7 +404,7 @@ func UDiv(a, b *T) *T {
 		}
 	}
 	// (x * c) / c == x when the product did not wrap
-	if b.IsConst() && b.C != 0 && a.Op == OMul && a.rng && a.A[1].IsConst() && a.A[1].C == b.C {
+	if b.IsConst() && b.C != 0 && a.Op == OMul && a.exact && a.A[1].IsConst() && a.A[1].C == b.C {
 		return a.A[0]
 	}
 	if nw := narrowWidth(a, b); nw < a.W {
@@ -657,6 +669,7 @@ func Shl(a, b *T) *T {
 		if bits.Len64(ah)+int(b.C) <= int(a.W) {
 			al, _ := a.Range()
 			r.setRange(al<<b.C, ah<<b.C)
+			r.exact = true
 		}
 		return r
 	}
@@ -1296,10 +1309,10 @@ func constStr(t *T) string {
 
 // Script is an SMT-LIB2 rendering of a set of assertions.
 type Script struct {
-	Text   string            // declarations, definitions and asserts
-	Syms   map[string]uint8  // declared symbols name -> width
-	UFApps []UFApp           // UF applications with the names of their arg/result definitions
-	Names  map[*T]string     // term -> name (or literal)
+	Text   string           // declarations, definitions and asserts
+	Syms   map[string]uint8 // declared symbols name -> width
+	UFApps []UFApp          // UF applications with the names of their arg/result definitions
+	Names  map[*T]string    // term -> name (or literal)
 }
 
 type UFApp struct {
